@@ -1,6 +1,121 @@
 //! Scenarios that exercise the Rust API directly (not through template text).
+use liquid_core::model::{KString, Object, ScalarCow, Value, ValueView};
+use liquid_core::runtime::{GlobalFrame, Interrupt, InterruptRegister, RuntimeBuilder, SandboxedStackFrame, StackFrame};
+use liquid_core::Runtime;
 use serde_json::{json, Value as J};
 
-pub fn run(kind: &str, _sc: &J) -> J {
-    json!({"outcome": "unknown-kind", "kind": kind})
+fn to_obj(j: Option<&J>) -> Object {
+    match j {
+        Some(g) => liquid_core::model::to_object(g).unwrap_or_default(),
+        None => Object::new(),
+    }
+}
+
+fn to_val(j: &J) -> Value {
+    liquid_core::model::to_value(j).unwrap_or(Value::Nil)
+}
+
+fn val_json(v: &dyn ValueView) -> J {
+    serde_json::to_value(v.to_value()).unwrap_or(J::Null)
+}
+
+fn interrupt_of(rt: &dyn Runtime) -> &'static str {
+    let r = rt.registers().get_mut::<InterruptRegister>();
+    // peek without clearing: reset() takes the value, so put it back
+    let mut r = r;
+    match r.reset() {
+        Some(Interrupt::Break) => {
+            r.set(Interrupt::Break);
+            "break"
+        }
+        Some(Interrupt::Continue) => {
+            r.set(Interrupt::Continue);
+            "continue"
+        }
+        None => "none",
+    }
+}
+
+fn observe(rt: &dyn Runtime, base: &dyn Runtime, sc: &J) -> J {
+    let mut qs = Vec::new();
+    if let Some(queries) = sc.get("queries").and_then(|q| q.as_array()) {
+        for q in queries {
+            let path: Vec<ScalarCow<'_>> = q
+                .as_array()
+                .map(|a| {
+                    a.iter()
+                        .map(|k| match k {
+                            J::String(s) => ScalarCow::new(s.clone()),
+                            J::Number(n) => ScalarCow::new(n.as_i64().unwrap_or(0)),
+                            _ => ScalarCow::new("?"),
+                        })
+                        .collect()
+                })
+                .unwrap_or_default();
+            let t = rt.try_get(&path).map(|v| val_json(v.as_view()));
+            let g = rt.get(&path).ok().map(|v| val_json(v.as_view()));
+            qs.push(json!({"path": q, "try_get": t, "get": g}));
+        }
+    }
+    let roots: Vec<String> = rt.roots().into_iter().map(|k| k.as_str().to_owned()).collect();
+    let mut index = serde_json::Map::new();
+    for k in ["a", "b", "z"] {
+        if let Some(v) = rt.get_index(k) {
+            index.insert(k.to_owned(), val_json(v.as_view()));
+        }
+    }
+    let top_i = interrupt_of(rt);
+    let base_i = interrupt_of(base);
+    json!({"outcome": "ok", "queries": qs, "roots": roots, "index": index, "top_interrupt": top_i, "base_interrupt": base_i})
+}
+
+fn go(rt: &dyn Runtime, base: &dyn Runtime, ops: &[J], sc: &J) -> J {
+    if ops.is_empty() {
+        return observe(rt, base, sc);
+    }
+    let op = &ops[0];
+    let rest = &ops[1..];
+    if let Some(kind) = op.get("push").and_then(|p| p.as_str()) {
+        let data = to_obj(op.get("data"));
+        match kind {
+            "plain" => {
+                let f = StackFrame::new(rt, data);
+                go(&f, base, rest, sc)
+            }
+            "sandbox" => {
+                let f = SandboxedStackFrame::new(rt, data);
+                go(&f, base, rest, sc)
+            }
+            "global" => {
+                let f = GlobalFrame::new(rt);
+                go(&f, base, rest, sc)
+            }
+            _ => json!({"outcome": "bad-op"}),
+        }
+    } else if let Some(a) = op.get("set_global").and_then(|p| p.as_array()) {
+        rt.set_global(KString::from_ref(a[0].as_str().unwrap_or("")), to_val(&a[1]));
+        go(rt, base, rest, sc)
+    } else if let Some(a) = op.get("set_index").and_then(|p| p.as_array()) {
+        rt.set_index(KString::from_ref(a[0].as_str().unwrap_or("")), to_val(&a[1]));
+        go(rt, base, rest, sc)
+    } else if let Some(k) = op.get("set_interrupt").and_then(|p| p.as_str()) {
+        rt.registers()
+            .get_mut::<InterruptRegister>()
+            .set(if k == "break" { Interrupt::Break } else { Interrupt::Continue });
+        go(rt, base, rest, sc)
+    } else {
+        json!({"outcome": "bad-op"})
+    }
+}
+
+pub fn run(kind: &str, sc: &J) -> J {
+    match kind {
+        "stack" => {
+            let globals = to_obj(sc.get("globals"));
+            let rt = RuntimeBuilder::new().set_globals(&globals).build();
+            let ops: Vec<J> = sc.get("ops").and_then(|o| o.as_array()).cloned().unwrap_or_default();
+            go(&rt, &rt, &ops, sc)
+        }
+        _ => json!({"outcome": "unknown-kind", "kind": kind}),
+    }
 }
